@@ -484,7 +484,7 @@ func (e errWrap) Wrap(h func(w http.ResponseWriter, r *http.Request) error) http
 		if err == nil {
 			return
 		}
-		e.log.Error(fmt.Sprintf("request error from (%s) %s: %+v", r.RemoteAddr, r.URL.String(), err))
+		e.log.Error(fmt.Sprintf("request error from (%s) %s: %+v", r.RemoteAddr, r.URL.EscapedPath(), err)) // same line as defaults.ErrorHandler
 		w.Header().Set("Content-Type", "application/json")
 		w.WriteHeader(http.StatusInternalServerError)
 		_, _ = io.WriteString(w, `{"status":"failure","error":"internal error"}`)
